@@ -39,6 +39,7 @@ mod html_gen;
 mod html_oracle;
 mod html_tok;
 mod suite_html;
+mod lex_layout;
 mod suite_lex;
 mod tree;
 
